@@ -53,6 +53,8 @@ def run(ctx, replay):
         if k not in seen:
             seen.add(k)
             uniq.append(c)
+    for i, c in enumerate(uniq):
+        c["edit"] = (((i * 2654435761) & 0xffffffff) >> 12) % 4    # 0: the parsed block; 1-3: the same block reached through Set / Delete / Replace (tombstones in the storage)
     traces, sums = vlib.drive_cases(ctx, "c10", uniq, nchunks=8)
     t2, s2 = vlib.drive_gen(ctx, "c10", 8, extra=["-n", 4000 if thorough else 400])
     n, bad = vlib.judge(ctx, "Trace_EnvBlock", traces + t2)
